@@ -433,10 +433,13 @@ def dataset_case(ctx, rng, idx):
             s = float(s) if overlapping else float(max(s, last_end + 0.05))
             d = float(rng.uniform(0.05, 1.5 if overlapping else 0.4)) if (
                 with_duration and rng.random() < 0.7) else np.nan
+            if with_duration and rng.random() < 0.15:
+                # a bolus recorded with duration 0 instead of an empty cell
+                d = 0.0
             a = float(rng.uniform(0.5, 4))
             rows.append({'ID': label, 'Time': s, 'Observable': np.nan,
                          'Value': np.nan, 'Dose': a, 'Duration': d})
-            dd = 0.01 if np.isnan(d) else d
+            dd = 0.01 if (np.isnan(d) or d == 0) else d
             truth[key].append((s, dd, a))
             last_end = s + dd
     df = pd.DataFrame(rows)
